@@ -264,11 +264,74 @@ func ruleQ2(c *Ctx, id string) {
 					default:
 						continue
 					}
+					// which keys go on: the side of the comparison from which the journal is reached.  "key >= sz" that
+					// leads to the panic and "key < sz" that leads on are the same predicate.
+					accSide := func() (token.Token, bool) {
+						iff, isIf := b.Instrs[len(b.Instrs)-1].(*ssa.If)
+						if !isIf {
+							return bo.Op, true
+						}
+						cond, neg := iff.Cond, false
+						for {
+							if u, isU := cond.(*ssa.UnOp); isU && u.Op == token.NOT {
+								cond, neg = u.X, !neg
+								continue
+							}
+							break
+						}
+						if cond != ssa.Value(bo) {
+							return bo.Op, true
+						}
+						reaches := func(from *ssa.BasicBlock) bool {
+							seen := map[*ssa.BasicBlock]bool{}
+							work := []*ssa.BasicBlock{from}
+							for len(work) > 0 {
+								x := work[len(work)-1]
+								work = work[:len(work)-1]
+								if seen[x] {
+									continue
+								}
+								seen[x] = true
+								for _, i2 := range x.Instrs {
+									if g := staticCallee(i2); g != nil && (g == c.V.OverWrite || g.Name() == "ReadBuf") {
+										return true
+									}
+									if _, isP := i2.(*ssa.Panic); isP {
+										return false
+									}
+								}
+								if _, isR := x.Instrs[len(x.Instrs)-1].(*ssa.Return); isR && sc.Fn != fn {
+									return true // a predicate helper: returning is going on
+								}
+								work = append(work, x.Succs...)
+							}
+							return false
+						}
+						t, f := b.Succs[0], b.Succs[1]
+						if neg {
+							t, f = f, t
+						}
+						switch {
+						case reaches(t) && !reaches(f):
+							return bo.Op, true
+						case reaches(f) && !reaches(t):
+							return negOp(bo.Op), true
+						}
+						return bo.Op, true
+					}
 					if _, fl, _, _ := loadedFieldS(bo.Y, sc.S); fl == "sz" {
-						p.hi = bo.Op.String()
+						op, _ := accSide()
+						p.hi = "key " + op.String() + " sz goes on"
+						if sc.Fn != fn {
+							p.hi = "key " + bo.Op.String() + " sz (in a predicate)"
+						}
 					}
 					if k, isk := constIntDeep(bo.Y); isk && k == constOfPkg(P, jrnlPath+"/common", "LOGSIZE") {
-						p.lo = bo.Op.String()
+						op, _ := accSide()
+						p.lo = "key " + op.String() + " LOGSIZE goes on"
+						if sc.Fn != fn {
+							p.lo = "key " + bo.Op.String() + " LOGSIZE (in a predicate)"
+						}
 					}
 				}
 			}
@@ -281,8 +344,8 @@ func ruleQ2(c *Ctx, id string) {
 		return
 	}
 	a, b := extract(mp), extract(get)
-	R.Check(a.hi != "" && a.hi == b.hi, id, "kvs|upper key bound agrees", P.Pos(get.Pos()), "MultiPut and Get compare the key with the store size in the same way", "both reject key "+a.hi+" sz", fmt.Sprintf("MultiPut rejects key %s sz, Get rejects key %s sz: a key one side accepts is refused (or crashes) on the other", a.hi, b.hi))
-	R.Check(a.lo != "" && a.lo == b.lo, id, "kvs|lower key bound agrees", P.Pos(get.Pos()), "MultiPut and Get compare the key with LOGSIZE in the same way", "both reject key "+a.lo+" LOGSIZE", fmt.Sprintf("MultiPut: %s, Get: %s", a.lo, b.lo))
+	R.Check(a.hi != "" && a.hi == b.hi, id, "kvs|upper key bound agrees", P.Pos(get.Pos()), "MultiPut and Get compare the key with the store size in the same way", a.hi, fmt.Sprintf("MultiPut: %s; Get: %s: a key one side accepts is refused (or crashes) on the other", a.hi, b.hi))
+	R.Check(a.lo != "" && a.lo == b.lo, id, "kvs|lower key bound agrees", P.Pos(get.Pos()), "MultiPut and Get compare the key with LOGSIZE in the same way", a.lo, fmt.Sprintf("MultiPut: %s, Get: %s", a.lo, b.lo))
 	// and the predicates refuse: what touches the journal (the write of a pair, the read of a key) lies on the
 	// accepting side of both comparisons - an out-of-range key addresses the log or a block beyond the store
 	logsize := constOfPkg(P, jrnlPath+"/common", "LOGSIZE")
